@@ -25,7 +25,7 @@ from .clicommon import run_cli
 
 OPS = ["compare", "compare_again", "field_comparator", "sort", "sort_points", "sort_cells", "strip", "merge", "extend",
        "diff", "write", "to_meshio", "to_meshio", "from_meshio_roundtrip", "equals", "predicate_reuse", "structured_access",
-       "dynamic_tolerance_reuse"]
+       "dynamic_tolerance_reuse", "sequence_reuse"]
 
 
 def snapshot(arrays):
@@ -197,6 +197,48 @@ def run_history(ctx, rng, idx):
                                     ctx.violation("E4", "a re-used predicate with a data-dependent tolerance gives a different verdict "
                                                   f"than a fresh one (dtype {x.dtype}: reused {v_shared}, fresh {v_fresh})", canon,
                                                   executed=executed + [op])
+                    elif op == "sequence_reuse":
+                        # one sequence object iterated completely, abandoned half-way (as the longer operand of a zip does),
+                        # and iterated again: every pass hands out all steps from the first one on
+                        from fieldcompare import FieldDataSequence
+
+                        class _Src:
+                            def __init__(self, steps):
+                                self._steps, self._i = steps, 0
+
+                            def reset(self):
+                                self._i = 0
+
+                            def step(self):
+                                self._i += 1
+                                return self._i < len(self._steps)
+
+                            def get(self):
+                                return self._steps[self._i]
+
+                            @property
+                            def number_of_steps(self):
+                                return len(self._steps)
+                        nsteps = rng.randint(2, 4)
+                        steps_ = [MeshFields(a.domain, {"marker": np.full(len(a.domain.points), float(k))}, {}) for k in range(nsteps)]
+                        seq = FieldDataSequence(source=_Src(steps_))
+
+                        def marks(it_, limit=None):
+                            out_ = []
+                            for fd in it_:
+                                out_.append(int(next(iter(fd)).values[0]))
+                                if limit is not None and len(out_) >= limit:
+                                    break
+                            return out_
+                        full1 = marks(seq)
+                        part = marks(seq, limit=rng.randint(1, nsteps - 1))
+                        full2 = marks(seq)
+                        both = [m for m, _ in zip(marks(seq), range(nsteps - 1))]
+                        full3 = marks(seq)
+                        if not (full1 == full2 == full3 == list(range(nsteps))):
+                            ctx.violation("E4", f"iterating the same sequence object again after an abandoned iteration gives {full2} / "
+                                                f"{full3} instead of {list(range(nsteps))} (partial pass: {part}, zip pass: {both})", canon,
+                                          executed=executed + [op])
                     elif op == "structured_access":
                         im = ImageMesh((2, 1, 0), (0.0, 0.0, 0.0), (1.0, 1.0, 1.0))
                         p1 = im.points
